@@ -741,6 +741,17 @@ class GatherMixin:
         body = zb(as_bool(elem(src, q, st)))
         return z3.Exists(q, z3.And(inb, body)) if exists else z3.ForAll(q, z3.Implies(inb, body))
 
+    def contains(self, container, item, st, n):
+        if is_arr(container) and len(shape_of(container)) == 1 and (isinstance(item, (str, SStr)) or is_int(item)):
+            # x in <1-D array>: some element equals x
+            i = z3.Int(fresh_name("ci"))
+            e = elem(container, [i], st)
+            if isinstance(e, SStr) != isinstance(item, (str, SStr)):
+                return False
+            same = val_eq(e, item) if isinstance(e, SStr) else compare("==", _num(e), item, True)
+            return z3.Exists([i], z3.And(i >= 0, i < zi(shape_of(container)[0]), zb(as_bool(same))))
+        return super().contains(container, item, st, n)
+
     def m_issubset(self, recv, args, kw, st, n):
         """{"a", "b"}.issubset(array of labels): every constant occurs somewhere in the array"""
         if not isinstance(recv, (set, frozenset)) or len(args) != 1:
